@@ -323,3 +323,22 @@ func buildReplay(w *World, prop string, o *Obligation) *Replay {
 	}
 	return rp
 }
+
+// deriveContract: the part of a function's contract that a family re-uses when it re-executes the
+// function with its own hooks (preconditions, invariants, flags — not ensures/modifies, which
+// belong to the general run).
+func deriveContract(base *Contract, name string) *Contract {
+	ct := &Contract{Kind: "func", Name: name, LoopInv: map[int][]*CExpr{}, LoopDec: map[int]*CExpr{}, Nilable: map[string]bool{}, NonNil: map[string]bool{}, Flags: map[string]string{}}
+	if base != nil {
+		ct.Requires = base.Requires
+		ct.Nilable, ct.NonNil, ct.Flags = base.Nilable, base.NonNil, base.Flags
+		ct.ArithChecked = base.ArithChecked
+		for k, v := range base.LoopInv {
+			ct.LoopInv[k] = append(ct.LoopInv[k], v...)
+		}
+		for k, v := range base.LoopDec {
+			ct.LoopDec[k] = v
+		}
+	}
+	return ct
+}
